@@ -1,0 +1,11 @@
+//go:build !verif
+// +build !verif
+
+package service
+
+// Verification hooks (see verif_on.go). Without the build tag "verif" they
+// are empty and compile to nothing.
+
+func verifYield(point string, obj interface{}) {}
+
+func verifEvent(point string, id uint64, arg int) {}
